@@ -74,6 +74,23 @@ def pool_check(ctx):
         s = ctx.harness(mode, prop='C14', n=400 if thorough else 40, **{'in': rr['out']})
         viol += s['violations']
         cov['compared'][mode + ': scores repeated after scoring a neighbour'] = s['compared']
+    # (g) the same objects evaluated in three different orders in three separate processes: the dumps must be equal
+    dumps = {}
+    for order in ('fwd', 'rev', 'shuffle'):
+        dp = os.path.join(ctx.work, 'dump-%s.json' % order)
+        s = ctx.harness('nbrdump', prop='C14', tier=order, aux=json.dumps(tabs), n=120 if thorough else 30, **{'in': dp})
+        viol += s['violations']
+        dumps[order] = json.load(open(dp))
+    ndiff = 0
+    for key, val in dumps['fwd'].items():
+        for order in ('rev', 'shuffle'):
+            if dumps[order].get(key) != val:
+                ndiff += 1
+                if ndiff <= 10:
+                    viol.append(dict(property='C14', kind='a result depends on what was evaluated before it in the process', version=key.split(' ')[0],
+                                     input=dict(object=key, orders=['fwd', order]), expected=val, observed=dumps[order].get(key),
+                                     replay=dict(mode='nbrdump-compare')))
+    cov['compared']['objects evaluated in 3 orders in 3 processes'] = len(dumps['fwd'])
     # (e) free-running goroutines under the race detector, every call validated against the sequential spec
     race = ctx.build_harness(race=True)
     v2, st = record_and_validate(ctx, 'C14', n=60000 if thorough else 2400, tier='concurrent', exe=race)
